@@ -650,7 +650,7 @@ def _histories(ck, rng, T, add, H, det_os):
 
     ck.notes.append("session of an earlier authentication %s when a new authentication starts (model parameter forget=%s)"
                     % (("is forgotten", True) if H.probe(det_os) else ("is kept (finding stale-session-after-failed-auth)", False)))
-    hs = [(h, 8 if T else 2, "calls") for h in H.generate(rng, T)]
+    hs = [(h, 6 if T else 2, "calls") for h in H.generate(rng, T)]
     hs += [(h, 0, "replay") for h in H.replay_histories(rng, T, det_os)]
     for h, budget, kind in hs:
         with Guard(ck, "history", h.describe):
